@@ -61,10 +61,10 @@ def impl(d):
     tx = tx_build(d["tx"])
     if k == "tx":
         return _sizes(tx)
-    out = [_sizes(tx)]
+    out = [guarded(lambda: _sizes(tx))]
     for m in d["muts"]:
         apply_mut_lib(tx, m)
-        out.append(_sizes(tx))
+        out.append(guarded(lambda: _sizes(tx)))
     return "|".join(out)
 
 
